@@ -302,12 +302,12 @@ func C04(c *vf.Ctx) {
 				// a terminal call of the application itself was already under way on this RPC: its error may win
 				localTerm := false
 				for _, q := range v.ops {
-					if q.R == r && q.Start <= ts.Marks["before"] && (q.Kind == "Close" || q.Kind == "CloseSend") {
+					if q.R == r && q.Start <= ts.Marks["before"] && (q.Kind == "Close" || q.Kind == "CloseSend" || q.Kind == "SendErr") {
 						localTerm = true
 					}
 				}
 				localErr := func(x string) bool {
-					return localTerm && (x == "termClosed" || x == "sendClosed" || x == "termBoth" || x == "EOF")
+					return localTerm && (x == "termClosed" || x == "sendClosed" || x == "termBoth" || x == "termError" || x == "EOF")
 				}
 				if parkedInDrpc(st) {
 					out = append(out, finding{"C04", fmt.Sprintf("call of a cancelled RPC still blocked inside drpc after the cancel (%s, %s) [%s]",
